@@ -17,7 +17,15 @@ import gen_engines as G
 PID = "C14"
 MODULES = ["FlVerif.Props.C14"]
 NAMESPACE = "C14"
-TIE_A = ["Tables.export"]
+TIE_A = ["Tables.export",
+         # the exporter (theorems `code_*` in the block "Tie A: exporter" of Props/C14.lean)
+         "code:fuzzylite.term.Term._parameters", "code:fuzzylite.term.Triangle.parameters", "code:fuzzylite.term.Constant.parameters",
+         "code:fuzzylite.term.Linear.parameters", "code:fuzzylite.rule.Rule.text.fget",
+         "code:fuzzylite.exporter.FllExporter.format", "code:fuzzylite.exporter.FllExporter.term", "code:fuzzylite.exporter.FllExporter.norm",
+         "code:fuzzylite.exporter.FllExporter.activation", "code:fuzzylite.exporter.FllExporter.defuzzifier",
+         "code:fuzzylite.exporter.FllExporter.rule", "code:fuzzylite.exporter.FllExporter.variable",
+         "code:fuzzylite.exporter.FllExporter.input_variable", "code:fuzzylite.exporter.FllExporter.output_variable",
+         "code:fuzzylite.exporter.FllExporter.rule_block", "code:fuzzylite.exporter.FllExporter.engine"]
 RULE = ("generated engines over every registered term class (incl. Discrete, Linear, Function, Constant), norm, defuzzifier "
         "(resolution / type), activation method (parameters), descriptions, disabled variables / blocks, heights and weights "
         "(1 | far from 1 | inside the tolerance | around the rounding boundary of the printed form), infinite / NaN ranges, NaN / "
